@@ -89,11 +89,14 @@ func (d *updogDriver) openFile(file string, optValues url.Values) (driver.Conn, 
 		opts = append(opts, updog.WithCache(lruCache))
 	}
 
-	d.fileConnMtx.RLock()
-	conn, ok := d.fileConnCache[key]
-	d.fileConnMtx.RUnlock()
+	// Looking up the connection, opening the index and registering the connection have to
+	// happen in one critical section: the index file is locked exclusively while it is open,
+	// so if two first users both got to open it, the second one would block until the first
+	// one's index is closed again.
+	d.fileConnMtx.Lock()
+	defer d.fileConnMtx.Unlock()
 
-	if ok {
+	if conn, ok := d.fileConnCache[key]; ok {
 		conn.refs.Add(1)
 		return conn, nil
 	}
@@ -103,15 +106,15 @@ func (d *updogDriver) openFile(file string, optValues url.Values) (driver.Conn, 
 		return nil, fmt.Errorf("couldn't open index file %q: %v", file, err)
 	}
 
-	conn = &fileConn{
+	conn := &fileConn{
 		idx: idx,
+		d:   d,
+		key: key,
 	}
 
-	d.fileConnMtx.Lock()
-	d.fileConnCache[key] = conn
-	d.fileConnMtx.Unlock()
-
 	conn.refs.Add(1)
+
+	d.fileConnCache[key] = conn
 
 	return conn, nil
 }
@@ -127,6 +130,10 @@ func (d *updogDriver) openConn(host string, port string) (driver.Conn, error) {
 
 type fileConn struct {
 	idx *updog.Index
+
+	// d and key identify the entry in the driver's connection cache.
+	d   *updogDriver
+	key fileCacheKey
 
 	refs atomic.Int32
 }
@@ -148,13 +155,20 @@ func (c *fileConn) prepare(query string) (*fileStmt, error) {
 }
 
 func (c *fileConn) Close() error {
-	if c.refs.Add(-1) <= 0 {
-		idx := c.idx
-		c.idx = nil
-		return idx.Close()
+	c.d.fileConnMtx.Lock()
+	defer c.d.fileConnMtx.Unlock()
+
+	if c.refs.Add(-1) > 0 || c.idx == nil {
+		return nil
 	}
 
-	return nil
+	// this was the last user: the connection must not be handed out again.
+	delete(c.d.fileConnCache, c.key)
+
+	idx := c.idx
+	c.idx = nil
+
+	return idx.Close()
 }
 
 func (c *fileConn) Begin() (driver.Tx, error) {
